@@ -185,12 +185,7 @@ def make_record(rec_id, st_json, comps, space, rew=None, term=None, actions=None
             d = xf(state, action, nxt) if xf is not None else False
             return nxt, r, d
 
-        try:
-            if seeds is None:
-                gen = rngtools.enumerate_outcomes(one, limit=enum_limit)
-            else:
-                gen = ((one(np.random.default_rng(s)), None) for s in seeds)
-                full = False
+        def collect(gen):
             for (nxt, r, d), _script in gen:
                 j = proj.state_to_json(nxt)
                 key = json.dumps(j, sort_keys=True)
@@ -210,8 +205,19 @@ def make_record(rec_id, st_json, comps, space, rew=None, term=None, actions=None
                     rex.append(False)
                 dones.append(bool(d))
                 dtypes.append('bool' if isinstance(d, (bool, np.bool_)) else type(d).__name__)
-        except rngtools.NotEnumerable:
-            full = False
+
+        try:
+            if seeds is None:
+                try:
+                    collect(rngtools.enumerate_outcomes(one, limit=enum_limit))
+                except rngtools.NotEnumerable:
+                    # the code draws in a way the enumerating generator cannot branch on (or too many outcomes):
+                    # sample with real generators instead; the support found is a subset (full = False)
+                    full = False
+                    collect(((one(np.random.default_rng(1000 + s_)), None) for s_ in range(24)))
+            else:
+                full = False
+                collect(((one(np.random.default_rng(s_)), None) for s_ in seeds))
         except Exception as e:  # the code raised
             outcome = proj.outcome_class(e)
             support = []
